@@ -204,6 +204,49 @@ def expand_local_macros(body):
         notes.append('local macro %s! expanded at %d sites' % (name, n))
 
 
+REFPAT_CLOSURE_RX = re.compile(r'\|\s*&\s*(\w+\s*\{[^|{}]*\})\s*\|')
+
+
+def desugar_ref_pattern_closures(body):
+    """R19: a closure whose single parameter is a reference pattern, `|&Pat { a, .. }| EXPR`, becomes
+    `|verif_p0| { let Pat { a, .. } = *verif_p0; EXPR }` - the definition of an irrefutable parameter pattern (the pointee
+    is Copy in the one place this occurs, Parser::error).  Verus rejects pattern parameters of closures."""
+    n = 0
+    while True:
+        mask = code_mask(body)
+        mm = None
+        for cand in REFPAT_CLOSURE_RX.finditer(body):
+            if mask[cand.start()]:
+                mm = cand
+                break
+        if not mm:
+            return body, n
+        # the closure body: an expression up to the closing paren of the enclosing call / a top-level comma
+        b = mm.end()
+        while b < len(body) and body[b].isspace():
+            b += 1
+        if body[b] == '{':
+            e = match_brace(body, mask, b) + 1
+            inner = body[b + 1:e - 1]
+        else:
+            pd, e = 0, b
+            while e < len(body):
+                if mask[e]:
+                    c = body[e]
+                    if c in '([{':
+                        pd += 1
+                    elif c in ')]}':
+                        if pd == 0:
+                            break
+                        pd -= 1
+                    elif c in ',;' and pd == 0:
+                        break
+                e += 1
+            inner = body[b:e]
+        body = body[:mm.start()] + '|verif_p0| { let %s = *verif_p0; %s }' % (' '.join(mm.group(1).split()), inner.strip()) + body[e:]
+        n += 1
+
+
 TWC_RX = re.compile(r'\(\s*(\w+)\s*\.\.\s*(\w+)\s*\)\s*\.\s*take_while\s*\(')
 
 
@@ -362,6 +405,10 @@ def extract(repo):
     impl_header = parser.text[s:o].strip()
     for nm, fs, fo, fc in fns_in(parser, 1, o + 1, c):
         h, b = split_fn(parser, fs, fo, fc)
+        if nm == 'error':
+            b, n19 = desugar_ref_pattern_closures(b)
+            if n19:
+                rewrites_bt.append('Parser::error: %d closure(s) with a reference-pattern parameter desugared (R19)' % n19)
         if nm == 'build_tree':
             try:
                 b, notes = expand_local_macros(b)
